@@ -32,7 +32,7 @@ def record_errors(cfg, u, x, logl, blobs, want_blobs):
         if not (li == logl[i]):
             errs.append(("logl", i, f"logl={logl[i]!r} but likelihood(x)={li!r}"))
         if want_blobs:
-            bi = targets.blob_of(x[i])
+            bi = targets.blob_expected(x[i], cfg)
             if not (bi == float(np.asarray(blobs[i]).reshape(-1)[0])):
                 errs.append(("blob", i, f"blob={blobs[i]!r} but blob(x)={bi!r}"))
         if len(errs) > 3:
@@ -112,6 +112,58 @@ def coherent_monitor(prefix="pipe"):
 
 
 # ------------------------------------------------------------------------------------------ C05
+def resample_law_monitor(prefix="pipe"):
+    """C06 at the call site: whatever the process has done before, a sampler configured with the systematic scheme must produce an index vector
+    that is non-decreasing with floor/ceil copy counts w.r.t. the weights it was given; no scheme may select a particle of weight 0.
+    Pool rows that are identical records (copies kept by a rejected move) are treated as one group."""
+    import math
+
+    def mon(ev):
+        if ev.step != "resample":
+            return
+        p = ev.probe
+        cur = p.state._current
+        w = ev.info.get("weights_in")
+        if cur["u"] is None or w is None or not float(cur["beta"]) > 0.0 or not p.state._history["u"]:
+            return
+        h = p.state._history
+        rows = [(np.asarray(ub[i]).tobytes(), np.asarray(xb[i]).tobytes(), float(lb[i])) for ub, xb, lb in zip(h["u"], h["x"], h["logl"]) for i in range(len(ub))]
+        w = np.asarray(w, dtype=float)
+        if len(rows) != len(w) or not w.sum() > 0:
+            return
+        wn = w / w.sum()
+        groups = {}
+        for i, r in enumerate(rows):
+            groups.setdefault(r, []).append(i)
+        n = len(cur["u"])
+        picked = [(np.asarray(cur["u"][i]).tobytes(), np.asarray(cur["x"][i]).tobytes(), float(cur["logl"][i])) for i in range(n)]
+        if any(r not in groups for r in picked):
+            return  # reported by the coherence monitor as not-from-pool
+        for r in set(picked):
+            if wn[groups[r]].sum() == 0.0:
+                p.violate(f"{prefix}:resample:zero-weight-selected", f"iteration {ev.iter}: a particle of weight 0 (pool index {groups[r][0]}) was resampled (scheme {p.cfg['resample']})", iter=ev.iter)
+                return
+        if p.cfg["resample"] != "syst":
+            return
+        prev = 0
+        for k, r in enumerate(picked):
+            cand = [i for i in groups[r] if i >= prev]
+            if not cand:
+                p.violate(f"{prefix}:resample:syst:indices-decrease", f"iteration {ev.iter}: the sampler is configured with resample='syst' but the resampled particles are not in pool order "
+                          f"(particle {k} is pool row {groups[r]}, the previous one was row >= {prev})", iter=ev.iter)
+                return
+            prev = cand[0]
+        for r, I in groups.items():
+            c = sum(1 for q in picked if q == r)
+            lo = sum(math.floor(n * wn[i] - 1e-9) for i in I)
+            hi = sum(math.ceil(n * wn[i] + 1e-9) for i in I)
+            if not lo <= c <= hi:
+                p.violate(f"{prefix}:resample:syst:count-law", f"iteration {ev.iter}: resample='syst' gave {c} copies of pool row(s) {I} with n*w = {[float(n * wn[i]) for i in I]}", iter=ev.iter)
+                return
+
+    return mon
+
+
 def reweight_errors(st, n_particles, ess_ratio, vv, beta_prev, w, first=False):
     """Oracle for one reweighting transition on a real StateManager `st` (already updated by
     Reweighter.run()).  Returns a list of (key, msg)."""
